@@ -115,7 +115,7 @@ class LawWorld(World):
 
     # ------------------------------------------------------------------
     def gen_op(self, rng, frng):
-        w = {"write": 5, "read_C": 3, "read_S": 2, "sqrt": 1.5, "walpole": 0.7, "set_C": 1.5 if self.kind == "Anisotropic" else 0,
+        w = {"write": 5, "bad_write": 0.8, "read_C": 3, "read_S": 2, "sqrt": 1.5, "walpole": 0.7, "set_C": 1.5 if self.kind == "Anisotropic" else 0,
              "flag": 1.0, "observer_assemble": 1.0 if self.obs else 0}
         names = sorted(w)
         pr = np.array([w[k] for k in names], dtype=float)
@@ -125,7 +125,11 @@ class LawWorld(World):
             cands = list(SCALARS[self.kind]) + ["thickness"] + (["planeStress"] if self.cfg["dim"] == 2 and self.kind != "Anisotropic" else [])
             pn = cands[int(rng.integers(len(cands)))]
             op["name"] = pn
-            if pn == "planeStress":
+            if rng.random() < 0.15 and not isinstance(self.p[pn], list):
+                # a write of the value the parameter already holds (must not cancel a pending change)
+                op["val"] = self.p[pn]
+                op["same"] = True
+            elif pn == "planeStress":
                 op["val"] = bool(rng.integers(2))
             elif pn == "thickness":
                 op["val"] = float(np.round(rng.uniform(0.5, 2), 3))
@@ -137,6 +141,12 @@ class LawWorld(World):
                     op["val"] = float(np.round(rng.uniform(lo, hi), 4))
                 else:
                     op["field"] = {"form": form, "aseed": int(rng.integers(1 << 30)), "lo": lo, "hi": hi}
+        elif name == "bad_write":
+            # a write the setter must refuse: the law stays the one of the last accepted parameters
+            cands = list(SCALARS[self.kind]) + ["thickness"]
+            pn = cands[int(rng.integers(len(cands)))]
+            op["name"] = pn
+            op["val"] = -1.0 if (pn == "thickness" or not pn.startswith("v")) else 1.5
         elif name == "set_C":
             op["aseed"] = int(rng.integers(1 << 30))
             op["voigt"] = bool(rng.integers(2))
@@ -195,6 +205,28 @@ class LawWorld(World):
         ctx.checked()
         return C, S
 
+    def _check_observers(self, which, what):
+        """K of the observing simulations vs a simulation built on a law with the final parameters."""
+        ctx = self.ctx
+        try:
+            with ctx.sut():
+                from EasyFEA import Simulations
+
+                raw = meshlib.library()[self.cfg["mesh"]]
+                ref = Simulations.Elastic(meshlib.build(raw), self._fresh())
+                Kr = ref.Get_K_C_M_F()[0]
+        except SutError:
+            return "exc:ref"
+        try:
+            with ctx.sut():
+                Ks = [(i, self.obs[i].Get_K_C_M_F()[0]) for i in which]
+        except SutError as e:
+            raise Violation("law-read-raises", f"{what}: observer assembly raises while a simulation on a fresh law assembles: {e}", e.site)
+        for i, K in Ks:
+            refs.sparse_close("stale-system", f"{what}: K of observer {i} vs a simulation built on the final law", K, Kr, rtol=1e-10)
+        ctx.checked()
+        return "ok"
+
     def apply(self, op):
         ctx = self.ctx
         name = op["op"]
@@ -216,15 +248,35 @@ class LawWorld(World):
             with ctx.sut():
                 setattr(law, pn, val)
             self.p[pn] = val.tolist() if isinstance(val, np.ndarray) else val
-            for i, s in enumerate(self.obs):
-                if not s.needUpdate:
-                    raise Violation("observer-not-notified", f"writing {pn} did not raise needUpdate on observer {i}")
-            if not law.needUpdate:
-                raise Violation("law-flag-not-raised", f"writing {pn} did not raise the law's own update flag")
+            if op.get("same"):
+                ctx.probe("equal_value_write")
+            # The update flags are the mechanism, not the property: a write that leaves a flag down (an equal-value
+            # write short-cut, an eager recomputation) is only wrong if what is read next is stale -- so read at once.
+            quiet = [i for i, s in enumerate(self.obs) if not s.needUpdate]
+            if quiet or not law.needUpdate:
+                ctx.probe("write_left_a_flag_down")
+                self._check_state(f"right after writing {pn} (flag not raised)")
+                if quiet:
+                    self._check_observers(quiet, f"right after writing {pn} (observer flag not raised)")
             ctx.checked()
             if "field" in op:
                 ctx.probe("field_parameter_" + op["field"]["form"])
             return "ok"
+
+        if name == "bad_write":
+            if op["name"] not in self.p:
+                return "skip"
+            try:
+                with ctx.sut():
+                    setattr(law, op["name"], op["val"])
+            except SutError:
+                ctx.probe("write_rejected_by_setter")
+                # the refused value must not have been stored, neither in the parameter nor in anything derived from it
+                C, _ = self._check_state("after a rejected write of " + op["name"])
+                return "rejected" if C is not None else "exc:both"
+            # the setter accepted it: then it is simply a write (whether it should have is not C11's staleness clause)
+            self.p[op["name"]] = op["val"]
+            return "accepted"
 
         if name == "set_C":
             if self.kind != "Anisotropic":
@@ -241,9 +293,9 @@ class LawWorld(World):
                 law.Set_C(Cn, op["voigt"])
             self.p["C"] = Cn.tolist()
             self.p["voigt"] = op["voigt"]
-            for i, s in enumerate(self.obs):
-                if not s.needUpdate:
-                    raise Violation("observer-not-notified", f"Set_C did not raise needUpdate on observer {i}")
+            quiet = [i for i, s in enumerate(self.obs) if not s.needUpdate]
+            if quiet:
+                self._check_observers(quiet, "right after Set_C (observer flag not raised)")
             ctx.checked()
             return "ok"
 
@@ -307,24 +359,7 @@ class LawWorld(World):
         if name == "observer_assemble":
             if not self.obs:
                 return "skip"
-            try:
-                with ctx.sut():
-                    from EasyFEA import Simulations
-
-                    raw = meshlib.library()[self.cfg["mesh"]]
-                    ref = Simulations.Elastic(meshlib.build(raw), self._fresh())
-                    Kr = ref.Get_K_C_M_F()[0]
-            except SutError:
-                return "exc:ref"
-            try:
-                with ctx.sut():
-                    Ks = [s.Get_K_C_M_F()[0] for s in self.obs]
-            except SutError as e:
-                raise Violation("law-read-raises", f"observer assembly raises while a simulation on a fresh law assembles: {e}", e.site)
-            for i, K in enumerate(Ks):
-                refs.sparse_close("stale-system", f"K of observer {i} vs a simulation built on the final law", K, Kr, rtol=1e-10)
-            ctx.checked()
-            return "ok"
+            return self._check_observers(range(len(self.obs)), "observer assembly")
 
         raise ValueError(name)
 
